@@ -132,6 +132,9 @@ class Predicates:
         if k == 'UnaryOperator' and e['op'] == '!':
             r = self.eval(e['c'][0], env, universe)
             return None if r is None else int(not r)
+        if k == 'UnaryOperator' and e['op'] in ('-', '+'):
+            r = self.eval(e['c'][0], env, universe)
+            return None if not isinstance(r, (int, float)) else (-r if e['op'] == '-' else r)
         if k == 'BinaryOperator':
             op = e['op']
             a = self.eval(e['c'][0], env, universe)
